@@ -466,7 +466,12 @@ fn gen_delegation_method<'s>(
                 trait_fn,
                 sig: fn_sig.clone(),
                 // Fully qualified: a supertrait may have a method of the same name
-                call: if takes_self_by_value {
+                call: if !matches!(fn_sig.inputs.first(), Some(syn::FnArg::Receiver(_))) {
+                    // an associated fn without a receiver is the associated fn of the inner type
+                    quote! {
+                        <#impl_t as #trait_with_arguments>::#fn_ident #turbofish(#(#arguments),*)
+                    }
+                } else if takes_self_by_value {
                     // a `self` method consumes the inner value as well
                     quote! {
                         <#impl_t as #trait_with_arguments>::#fn_ident #turbofish(#self_token.into_inner(), #(#arguments),*)
